@@ -117,14 +117,19 @@ def gen_cases(ctx):
             daily.append(wxlib.column("PRECO", "%v", 28)); dspec.append("(Some TBool, 0%nat, 0%nat, 0%nat)")
         yearly, yspec = _cols(rnd, G_VARS, ["AKTUELL"], rnd.randrange(0, 6))
         crop, cspec = _cols(rnd, C_VARS, ["Crop", "HarvestYear", "HarvestDOY"], rnd.randrange(0, 5))
-        cases.append({"idx": idx, "sy": sy, "start": start, "end": end, "ann": ann, "eff": eff, "k": k, "csv": csv, "rot": rot,
+        earlier = ()
+        if idx % 5 == 2:
+            earlier = ("longer",)
+        elif idx % 5 == 4:
+            earlier = rnd.choice([("same",), ("longer", "same"), ("longer", "longer")])
+        cases.append({"idx": idx, "earlier": earlier, "sy": sy, "start": start, "end": end, "ann": ann, "eff": eff, "k": k, "csv": csv, "rot": rot,
                       "daily": daily, "yearly": yearly, "crop": crop, "spec": (dspec, yspec, cspec), "unsupported": unsupported})
     return cases
 
 
 def _describe(cs):
-    return ("case %d start=%s EndDate=%s annual=%s OutputIntervall=%d ResultFileFormat=%d rotation harvests=%s columns=%d/%d/%d"
-            % (cs["idx"], cs["start"], cs["end"], cs["ann"], cs["k"], 1 if cs["csv"] else 0,
+    return ("case %d%s start=%s EndDate=%s annual=%s OutputIntervall=%d ResultFileFormat=%d rotation harvests=%s columns=%d/%d/%d"
+            % (cs["idx"], (" [after %s run(s) into the same result folder: %s]" % (len(cs["earlier"]), "+".join(cs["earlier"]))) if cs.get("earlier") else "", cs["start"], cs["end"], cs["ann"], cs["k"], 1 if cs["csv"] else 0,
                [str(h) for _, _, h in cs["rot"]], len(cs["daily"]), len(cs["yearly"]), len(cs["crop"])))
 
 
@@ -177,15 +182,27 @@ def _run(ctx):
         if d in harvest_days:
             r["prec"] = rnd.choice(["95.0", "160.0", "61.5"])
     wcfg = wxlib.write_weather(root, "w", 1, "WX", ser)
-    lines = []
+    lines, owner = [], []
     for c in cases:
         p = "r%03d" % c["idx"]
         cfg = dict(wcfg, WeatherFolder="w", StartYear=c["sy"], EndDate=de(c["end"]),
                    AnnualOutputDate="%02d%02d" % (c["ann"].day, c["ann"].month), OutputIntervall=c["k"],
                    ResultFileFormat=1 if c["csv"] else 0, ETpot=rnd.choice([1, 2, 3, 4]))
+        # a used result folder: one or two earlier runs into the SAME folder (same file names), longer / more records or
+        # the same; the files must afterwards hold the records of the last run only
+        for j, kind in enumerate(c.get("earlier", ())):
+            pe = "%se%d" % (p, j)
+            cfg0 = dict(cfg)
+            if kind == "longer":
+                cfg0["EndDate"] = de(min(c["end"] + datetime.timedelta(days=400 + 150 * j), D(hi + 1, 6, 30)))
+                cfg0["OutputIntervall"] = 1
+            wxlib.write_project(root, pe, cfg0, c["rot"], c["daily"], c["yearly"], c["crop"])
+            lines.append(wxlib.batch_line(pe, "WX", "R/" + p)); owner.append(None)
         wxlib.write_project(root, p, cfg, c["rot"], c["daily"], c["yearly"], c["crop"])
-        lines.append(wxlib.batch_line(p, "WX", "R/" + p))
-    rc, runs, err = wxlib.run_lines(ctx, root, lines, False, "c05")
+        lines.append(wxlib.batch_line(p, "WX", "R/" + p)); owner.append(c["idx"])
+    rc, allruns, err = wxlib.run_lines(ctx, root, lines, False, "c05")
+    runs = [r for r, o in zip(allruns, owner) if o is not None] if len(allruns) == len(lines) else []
+    _cache["earlier_runs"] = [r for r, o in zip(allruns, owner) if o is None]
     obs = []
     for c, run in zip(cases, runs):
         rdir = os.path.join(root, "R", "r%03d" % c["idx"])
@@ -251,6 +268,8 @@ def correspond(ctx):
         c.nontrivial += len(o["V"]) + len(o["Y"]) + len(o["C"])
         c.bump("csv" if cs["csv"] else "fixed-width"); c.bump("interval-1" if cs["k"] == 1 else "interval>1")
         c.bump("rotation-%d" % len(cs["rot"]))
+        if cs.get("earlier"):
+            c.bump("after-earlier-runs-into-the-same-result-folder"); c.bump("earlier-" + "+".join(cs["earlier"]))
     hdr = ["From Coq Require Import ZArith List Bool Uint63.", "From Hermes Require Import CtrlModel C04Corr.",
            "Import ListNotations.", "Open Scope Z_scope."]
     items = []
